@@ -38,6 +38,7 @@ type verifCase struct {
 	Fail              []int    `json:"fail"`
 	LatUs             []int    `json:"latUs"`
 	OnCancel          []string `json:"onCancel"`
+	FailKind          []string `json:"failKind"`
 	Yield             bool     `json:"yield"`
 	CancelAfterEvents int      `json:"cancelAfterEvents"`
 }
@@ -162,6 +163,9 @@ func verifWalk(vc verifCase, res *verifResult, settle func()) {
 			return CacheMiss, nil
 		case "cancelled":
 			return CacheMiss, fmt.Errorf("interrupted: %w", context.Canceled)
+		}
+		if i < len(vc.FailKind) && vc.FailKind[i] == "deadline" {
+			return CacheMiss, fmt.Errorf("timeout after 1s: %w", context.DeadlineExceeded)
 		}
 		return CacheMiss, errors.New("target failed")
 	}
@@ -309,7 +313,9 @@ func verifOnCompleteSteps(vc verifCase, res *verifStepResult) {
 		if unsel[i] {
 			continue
 		}
-		infos[i] = &nodeInfo{done: make(chan Completion, 1), ready: make(chan interface{}, 1), cancel: make(chan interface{}, 1)}
+		// no routine consumes the ready messages here, and a dependency listed twice sends two of them: give the
+		// channel room (Walk uses capacity 1 and a consumer) - only "holds a ready message" is compared
+		infos[i] = &nodeInfo{done: make(chan Completion, 1), ready: make(chan interface{}, 64), cancel: make(chan interface{}, 1)}
 		w.nodeInfoMap[nodes[i].Label] = infos[i]
 	}
 	for i := 0; i < vc.N; i++ {
